@@ -760,6 +760,8 @@ class IntervalEval:
             return AIter(a0.elem, a0.maxlen, a0.minlen)
         if base == "len" and isinstance(a0, ASlice):
             return AInt(a0.minlen, a0.maxlen if a0.maxlen is not None else 2 ** 64 - 1, "usize")
+        if base == "capacity" and isinstance(a0, ASlice):
+            return AInt(a0.minlen, 2 ** 63 - 1, "usize")
         if base in ("copied", "cloned", "rev", "by_ref") and isinstance(a0, AIter):
             return a0
         if base in ("copied", "cloned") and isinstance(a0, AOpt):
